@@ -62,6 +62,9 @@ def build(ctx, rng, cond, shape=(3, 2, 2)):
             a.write(d, 'f%d' % di, rng.randbytes(4000))
         os.unlink(a.path(a.disks[0], 'ln0'))
         os.makedirs(a.path(a.disks[1], 'newdir/empty'))
+        # a touch candidate (recorded nanoseconds 0) rewritten with ANOTHER whole-second time-stamp: touch may only add the
+        # sub-second part to the second found on disk
+        a.write(a.disks[1], 'z1', rng.randbytes(1500), mtime_ns=(T0 + 7777) * 10**9)
         # recorded nanoseconds not 0, rewritten with a whole-second time-stamp: not a touch candidate
         a.write(a.disks[0], 'a0', rng.randbytes(3000), mtime_ns=(T0 + 5000) * 10**9)
     elif cond == 'damaged':
@@ -184,6 +187,8 @@ def judge(ctx, a, paths, o, cond, st_before, replay):
     def bad(tag, msg):
         ctx.viol(tag, 'WRITE OUTSIDE THE DOCUMENTED SET: `%s %s` on a %s array: %s' % (cmd, ' '.join(opts), cond, msg), rep)
 
+    for r in L.lock_path_removed(o)[:1]:
+        bad('lock_removed', 'the lock file is removed or replaced (%s %s): the lock is a flock on its inode, a later command would lock a different inode' % (r['call'], r['extra']))
     # ---- (i) the shim's write set
     for cl, kind, r in o.eff:
         ctx.effects_seen += 1
